@@ -139,15 +139,19 @@ type spec struct {
 func epilogue(depth, msize int) []byte {
 	p := asm.New()
 	total := msize + 32*(depth+1)
-	if total > 0xffff || depth+2 > 1024 {
+	if total > 0xffffff || depth+2 > 1024 {
 		return p.Op(vm.MSIZE).PushN(1, []byte{0}).Op(vm.RETURN).Bytes()
 	}
+	w := 2 // offsets as PUSH2, or PUSH3 once the image exceeds 64 KiB
+	if total > 0xffff {
+		w = 3
+	}
+	be := func(o int) []byte { return []byte{byte(o >> 16), byte(o >> 8), byte(o)}[3-w:] }
 	p.Op(vm.MSIZE)
 	for i := 0; i <= depth; i++ {
-		o := msize + 32*i
-		p.PushN(2, []byte{byte(o >> 8), byte(o)}).Op(vm.MSTORE)
+		p.PushN(w, be(msize+32*i)).Op(vm.MSTORE)
 	}
-	p.PushN(2, []byte{byte(total >> 8), byte(total)}).PushN(1, []byte{0}).Op(vm.RETURN)
+	p.PushN(w, be(total)).PushN(1, []byte{0}).Op(vm.RETURN)
 	return p.Bytes()
 }
 
@@ -744,6 +748,170 @@ func (g *checker) famStack() {
 	}
 }
 
+// truncation aliases: every operand that is used as an index / offset / size / count / destination, at a small
+// meaningful value v, is replaced by v + 2^k (k = 8, 16, 32, 63, 64, 128, 255).  By specification the result never
+// behaves like v; an implementation that narrows the 256-bit operand to 8/16/32/63/64 bits at any point does.
+var aliasK = []uint{8, 16, 32, 63, 64, 128, 255}
+
+func genCase(fam string, op byte, class string, words int, rd *rdSetup, args ...*big.Int) *spec {
+	p := withSentinel()
+	after := fmt.Sprintf("on %d-byte memory", 32*words)
+	if rd != nil {
+		rdPrologue(p, *rd)
+		after = "after identity call (" + rd.name + ")"
+	} else {
+		memPrologue(p, words)
+	}
+	var ds []string
+	for i := len(args) - 1; i >= 0; i-- {
+		p.Push(args[i])
+	}
+	for _, a := range args {
+		ds = append(ds, short(a))
+	}
+	p.Raw(op)
+	return &spec{fam: fam, op: name(op), class: class, desc: fmt.Sprintf("%s(%s) %s", name(op), strings.Join(ds, ", "), after), body: p.Bytes()}
+}
+
+// jumpLayout builds [PUSH1 1] PUSH32 dest JUMP|JUMPI STOP <v:> ... and returns the code and v.
+//
+//	short:   v: JUMPDEST PUSH1 0x77 (epilogue follows)
+//	long:    v: JUMPDEST PUSH1 0x77 PUSH3 end JUMP, zero padding up to end = v+65536+16: JUMPDEST   (v+256, v+65536 are in range, not JUMPDESTs)
+//	shifted: v: STOP ... v+256: JUMPDEST PUSH1 0x78 PUSH3 end JUMP ... v+65536: JUMPDEST PUSH1 0x79 PUSH3 end JUMP ... end: JUMPDEST
+func jumpLayout(kind string, jumpi bool, dest func(v int64) *big.Int) ([]byte, int64) {
+	v := int64(35)
+	p := asm.New()
+	if jumpi {
+		v = 37
+		p.PushN(1, []byte{1})
+	}
+	p.PushN(32, dest(v).Bytes())
+	if jumpi {
+		p.Op(vm.JUMPI)
+	} else {
+		p.Op(vm.JUMP)
+	}
+	p.Op(vm.STOP)
+	code := p.Bytes()
+	end := int(v) + 65536 + 16
+	land := func(at int, marker byte) {
+		for len(code) < at {
+			code = append(code, 0x00)
+		}
+		code = append(code, 0x5b, 0x60, marker, 0x62, byte(end>>16), byte(end>>8), byte(end), 0x56)
+	}
+	switch kind {
+	case "short":
+		code = append(code, 0x5b, 0x60, 0x77)
+		return code, v
+	case "long":
+		land(int(v), 0x77)
+	case "shifted":
+		code = append(code, 0x00)
+		land(int(v)+256, 0x78)
+		land(int(v)+65536, 0x79)
+	}
+	for len(code) < end {
+		code = append(code, 0x00)
+	}
+	code = append(code, 0x5b)
+	return code, v
+}
+
+func (g *checker) famAlias() {
+	add := func(v *big.Int, k uint) *big.Int { return new(big.Int).Add(v, pow2(k)) }
+	// sub(i) = args with operand i aliased
+	each := func(fam string, op byte, words int, rd *rdSetup, args []*big.Int, positions ...int) {
+		for _, pos := range positions {
+			for _, k := range aliasK {
+				pos, k := pos, k
+				g.next(func() *spec {
+					a2 := append([]*big.Int{}, args...)
+					a2[pos] = add(args[pos], k)
+					return genCase(fam, op, fmt.Sprintf("alias-operand%d", pos), words, rd, a2...)
+				})
+			}
+		}
+	}
+	vals := []*big.Int{mixedA, mixedB}
+	for _, x := range vals {
+		for _, v := range []int64{0, 1, 31} {
+			each("alias", 0x1a, 0, nil, []*big.Int{big.NewInt(v), x}, 0) // BYTE index
+		}
+		for _, v := range []int64{0, 1, 31, 32, 255} {
+			for _, op := range []byte{0x1b, 0x1c, 0x1d} {
+				each("alias", op, 0, nil, []*big.Int{big.NewInt(v), x}, 0) // shift count
+			}
+		}
+	}
+	for _, x := range []*big.Int{mixedA, mixedB, big.NewInt(0x80), big.NewInt(0x7fff)} {
+		for _, v := range []int64{0, 1, 30, 31} {
+			each("alias", 0x0b, 0, nil, []*big.Int{big.NewInt(v), x}, 0) // SIGNEXTEND index
+		}
+	}
+	for _, v := range []int64{0, 1, 31, 32} {
+		each("alias", 0x51, 2, nil, []*big.Int{big.NewInt(v)}, 0)
+		each("alias", 0x52, 2, nil, []*big.Int{big.NewInt(v), mixedA}, 0)
+		each("alias", 0x53, 2, nil, []*big.Int{big.NewInt(v), mixedB}, 0)
+	}
+	for _, v := range []int64{0, 1, 8, 31, 32, 39} {
+		each("alias", 0x35, 0, nil, []*big.Int{big.NewInt(v)}, 0) // CALLDATALOAD offset
+	}
+	plain := rdSetups[1]
+	for _, b := range [][]int64{{0, 0, 32}, {32, 1, 31}, {1, 32, 1}, {0, 0, 0}, {31, 0, 33}} {
+		args := bigs(b)
+		for _, op := range []byte{0x37, 0x39, 0x5e} {
+			each("alias", op, 2, nil, args, 0, 1, 2)
+		}
+		each("alias", 0x3e, 2, &plain, args, 0, 1, 2)
+	}
+	for _, b := range [][]int64{{0, 32}, {1, 31}, {32, 0}, {0, 0}, {0, 64}} {
+		args := bigs(b)
+		for _, op := range []byte{0x20, 0xf3, 0xfd} {
+			fam := "alias"
+			if op != 0x20 {
+				fam = "ret"
+			}
+			each(fam, op, 2, nil, args, 0, 1)
+		}
+	}
+	// jump destinations: v is a real JUMPDEST (short, long) or the JUMPDESTs sit at v+2^8 and v+2^16 (shifted)
+	for _, kind := range []string{"short", "long", "shifted"} {
+		for _, jumpi := range []bool{false, true} {
+			var dests []func(v int64) *big.Int
+			var names []string
+			for _, base := range []int64{0, 256, 65536} {
+				if base != 0 && kind != "shifted" {
+					continue
+				}
+				base := base
+				dests = append(dests, func(v int64) *big.Int { return big.NewInt(v + base) })
+				names = append(names, fmt.Sprintf("v+%d", base))
+				for _, k := range aliasK {
+					if k < 32 && base >= int64(1)<<k {
+						continue
+					}
+					k := k
+					dests = append(dests, func(v int64) *big.Int { return add(big.NewInt(v+base), k) })
+					names = append(names, fmt.Sprintf("v+%d+2^%d", base, k))
+				}
+			}
+			for i := range dests {
+				kind, jumpi, d, dn := kind, jumpi, dests[i], names[i]
+				g.next(func() *spec {
+					code, v := jumpLayout(kind, jumpi, d)
+					op := "JUMP"
+					if jumpi {
+						op = "JUMPI"
+					}
+					return &spec{fam: "alias-jump", op: "alias", sigKind: "jump",
+						desc: fmt.Sprintf("%s to %s (v=%d) in layout %q", op, dn, v, kind), body: code}
+				})
+			}
+		}
+	}
+}
+
 // straight-line programs
 var (
 	prog20 = []byte{0x01, 0x02, 0x03, 0x05, 0x07, 0x08, 0x09, 0x0a, 0x0b, 0x12, 0x11, 0x15, 0x18, 0x19, 0x1a, 0x1b, 0x1d, 0x81, 0x91, 0x50}
@@ -1040,6 +1208,7 @@ func run(c *fw.Ctx) {
 	g.famArith()
 	g.famMemory()
 	g.famStack()
+	g.famAlias()
 	g.famJump()
 	g.famProg()
 	var nops int64
